@@ -1,6 +1,7 @@
 package main
 
 import (
+	"bytes"
 	"encoding/json"
 	"flag"
 	"os"
@@ -53,9 +54,12 @@ func scriptEvent(src string, s []byte) Ev {
 		}
 		e["jsonrt"] = []int{-1}
 		if jb, err := json.Marshal(sc); err == nil {
-			var back bscript.Script
-			if json.Unmarshal(jb, &back) == nil {
-				e["jsonrt"] = ints(back)
+			// the rendering is decoded twice from the same buffer: a decoder may neither modify nor
+			// retain its input, so both results are the script and the buffer is what it was
+			keep := append([]byte{}, jb...)
+			var back, again bscript.Script
+			if json.Unmarshal(jb, &back) == nil && json.Unmarshal(jb, &again) == nil && bytes.Equal(jb, keep) && bytes.Equal(back, again) {
+				e["jsonrt"] = ints(again)
 			}
 		}
 		asm := Ev{"ok": false, "rt": []int{}}
